@@ -217,17 +217,19 @@ def b64Index (c : Char) : Nat :=
   else if isDigit c then c.toNat + 4
   else if c == '+' then 62 else 63
 
+/-- the unused low bits of the last symbol must be zero (canonical form) -/
+def lastOkB (padLength : Nat) (last : Option Char) : Bool :=
+  match padLength, last with
+  | 1, some c => b64Index c % 4 == 0
+  | 2, some c => b64Index c % 16 == 0
+  | _, _ => true
+
 def base64DecodedLength (cs : List Char) : Option Nat :=
   if cs.length % 4 != 0 || cs.isEmpty then none else
   let body := cs.takeWhile (· != '=')
   let pad := cs.dropWhile (· != '=')
   if !body.all isB64 || !pad.all (· == '=') || pad.length > 2 then none else
-  -- the unused low bits of the last symbol must be zero (canonical form)
-  let lastOk := match pad.length, body.getLast? with
-    | 1, some c => b64Index c % 4 == 0
-    | 2, some c => b64Index c % 16 == 0
-    | _, _ => true
-  if !lastOk then none else some (body.length * 3 / 4)
+  if !lastOkB pad.length body.getLast? then none else some (body.length * 3 / 4)
 
 def acceptsBase64 (maxLen : Nat) (cs : List Char) : Bool :=
   match base64DecodedLength cs with
